@@ -24,9 +24,16 @@ def judge(case, res, exp):
         if cg != cw:
             d = [(w, cw[w], cg[w]) for w in set(cg) | set(cw) if cg[w] != cw[w]][:4]
             fails.append('word multiplicity differs (word, expected, got): %r' % d)
-        else:
+        elif not exp.nested:
             k = next(i for i in range(len(want)) if got2[i] != want[i])
             fails.append('word order differs at %d: expected %r got %r' % (k, want[k:k + 4], got2[k:k + 4]))
+        else:
+            # nested detached flows: the order *between* flows is not prescribed; each flow must be contiguous and in order
+            joined = ' '.join(got2)
+            for f in [exp.main] + exp.flows:
+                ws = ' '.join(w for w, _ in f)
+                if ws and ws not in joined:
+                    fails.append('flow %r is not contiguous / in order in the output' % ws[:60]); break
     # no markup left: control sequences / grouping braces / $ only from literal contexts
     if not case.get('literal_markup'):
         m = MARKUP.search(txt)
